@@ -410,3 +410,45 @@ func (w *World) Describe() string {
 	}
 	return sb.String()
 }
+
+// ForceDup appends a version identical to the latest one (a legacy duplicate that today's write path refuses).
+func (w *World) ForceDup(ds, id string) {
+	d := w.Datasets[ds]
+	if d == nil || d.Latest(id) == nil {
+		return
+	}
+	w.commit++
+	w.seq++
+	v := &Version{ID: id, C: d.Latest(id).C.Clone(), Commit: w.commit, Seq: w.seq}
+	d.Versions[id] = append(d.Versions[id], v)
+	d.Feed = append(d.Feed, v)
+}
+
+// Compact removes every version that is identical to its immediate predecessor (deduplicating compaction).
+// It returns the number of versions removed.
+func (w *World) Compact(ds string) int {
+	d := w.Datasets[ds]
+	if d == nil {
+		return 0
+	}
+	removed := map[*Version]bool{}
+	for id, vs := range d.Versions {
+		var kept []*Version
+		for i, v := range vs {
+			if i > 0 && v.C.Equal(kept[len(kept)-1].C) {
+				removed[v] = true
+				continue
+			}
+			kept = append(kept, v)
+		}
+		d.Versions[id] = kept
+	}
+	var feed []*Version
+	for _, v := range d.Feed {
+		if !removed[v] {
+			feed = append(feed, v)
+		}
+	}
+	d.Feed = feed
+	return len(removed)
+}
